@@ -205,6 +205,12 @@ def model_param_expect(p):
     return ty, None, data
 
 
+def _nz16(b):
+    a = np.frombuffer(b, dtype=np.uint16).copy()
+    a[a == 0x8000] = 0
+    return a.tobytes()
+
+
 def cmp_pipeline(ctx, drv, mb, q, cr, real_out, family="pipeline"):
     """whole quantize(): model graph + params vs the real output bytes (or exception class)."""
     if not qsv_finite(cr):
@@ -267,6 +273,9 @@ def cmp_pipeline(ctx, drv, mb, q, cr, real_out, family="pipeline"):
                     diffs.append(f"buffer {bi}: not the original bytes")
             else:
                 _, _, ed = model_param_expect(ptab[mb_["p"]])
+                if ptab[mb_["p"]]["kind"] != "uniform" and rdata is not None and ed is not None and len(rdata) == len(ed):
+                    # exact rationals have no signed zero: float16 -0.0 and +0.0 are one value of the model
+                    rdata, ed = _nz16(rdata), _nz16(ed)
                 if rdata != ed:
                     diffs.append(f"buffer {bi}: bytes differ from the model's quantized data")
     if diffs:
